@@ -19,8 +19,8 @@ MANIFEST = {
     "level_note": "Trusted: Lean kernel; hand transcription of the C++ into Lean (validated only by the differential run); std::sort on two "
                   "elements, std::mt19937_64 (re-implemented in the driver to predict work nonces), the harness. Histories of inbound perform_handshake calls (key table, handshake records, the exact-repeat cooldown short-circuit, the same "
                   "peer id returning with another key pair) are modelled and covered by key_replaced/key_current; time-driven key rotation "
-                  "(rotate_if_needed) is C21. Identity scalars drawn from a seed are checked at run time (range [2,p-2], public = "
-                  "g^scalar) but the libstdc++ distribution is not modelled. No secrecy claim: a 31-bit group offers none.",
+                  "(rotate_if_needed) is C21. The identity scalar of a seeded node is modelled (mt19937 + libstdc++ Lemire distribution, "
+                  "re-implemented and validated by the differential run against Node and the CLI's derive_public_identity_from_seed). No secrecy claim: a 31-bit group offers none.",
     "technique": "Lean 4 proof (modular arithmetic, induction on the square-and-multiply loop) + model/implementation differential correspondence with Lean monitor",
 }
 
@@ -32,15 +32,27 @@ INTERNAL_OPS = {"material"}
 
 
 def harness():
+    import tools.vlib as V
     srcs = [s for s in ALL_CORE_SOURCES if s != "src/core/Node.cpp"]
+    # main.cpp (second TU, only with internals) needs the daemon sources at link time
+    srcs += ["src/daemon/ControlPlane.cpp", "src/daemon/ControlClient.cpp", "src/daemon/ControlServer.cpp",
+             "src/daemon/StructuredLogger.cpp"]
+
+    def build(defines):
+        libs = ["-lcurl", "-lpthread"]
+        if "-DVERIF_INTERNALS=1" in defines:
+            flags = list(BASE_FLAGS) + [f"-I{REPO}/include", f"-I{REPO}/src", f"-I{REPO}", f"-I{VERIF}/harness"] + list(defines)
+            cli_obj = V._compile_obj(VERIF / "harness" / "kex_cli_h.cpp", flags, tree_hash("include") + tree_hash("src"))
+            libs = [str(cli_obj)] + libs
+        return build_harness("kex_h", "harness/kex_h.cpp", srcs, libs=libs, defines=defines)
+
     _H["notes"] = []
-    exe, _H["internals"] = build_harness_with_fallback(
-        lambda defines: build_harness("kex_h", "harness/kex_h.cpp", srcs, libs=["-lcurl", "-lpthread"], defines=defines),
-        _H["notes"])
+    exe, _H["internals"] = build_harness_with_fallback(build, _H["notes"])
     if not _H["internals"]:
         _H["notes"].append("C12 without harness internals: make_handshake_material is not called directly (op `material` dropped), so the "
-                           "exact key-material bytes are observed only through the session keys of real handshakes; key equality on both "
-                           "sides, key = derived from the current public keys, acceptance and DH agreement are still judged on every line")
+                           "exact key-material bytes are observed only through the session keys of real handshakes, and the CLI's "
+                           "derive_public_identity_from_seed is not compared (cli=?); key equality on both sides, key = derived from the "
+                           "current public keys, seed-derived identity (two nodes, model), acceptance and DH agreement are still judged")
     return exe
 
 
@@ -49,6 +61,19 @@ def extract():
         Const("kPrime", "include/ephemeralnet/network/KeyExchange.hpp", r"constexpr\s+std::uint32_t\s+kPrime\s*=\s*([^;]+);", default=P),
         Const("kGenerator", "include/ephemeralnet/network/KeyExchange.hpp", r"constexpr\s+std::uint32_t\s+kGenerator\s*=\s*([^;]+);", default=5),
     ])
+    # generate_identity_scalar: is the configured seed used whenever one is configured (has_value())?
+    flag = 1
+    try:
+        txt = (REPO / "src/core/Node.cpp").read_text(errors="replace")
+        m = re.search(r"generate_identity_scalar\s*\(const Config&\s*config\)\s*\{(.*?)\n\}", txt, flags=re.S)
+        cond = re.search(r"if\s*\((.*?)\)\s*\{\s*generator\.seed", m.group(1), flags=re.S) if m else None
+        if cond is None:
+            gaps.append("identitySeedUsesHasValue (src/core/Node.cpp): generate_identity_scalar's seed test not found")
+        else:
+            flag = 1 if re.fullmatch(r"config\.identity_seed(\.has_value\(\))?", cond.group(1).strip()) else 0
+    except Exception as ex:
+        gaps.append(f"identitySeedUsesHasValue: {ex}")
+    vals["identitySeedUsesHasValue"] = flag
     write_generated(PID, lean_consts(vals))
     return gaps
 
@@ -168,7 +193,8 @@ def gen_pub(rng) -> Case:
 
 
 def gen_ident(rng) -> Case:
-    return Case(ops=[f"ident {rng.choice([0, 1, 2, 7, U32 - 1, rng.randrange(0, U32)])}" for _ in range(rng.randint(2, 6))], tag="ident")
+    # identity seeds: 0 (a configured seed like any other), 1, 2^32-1, random
+    return Case(ops=[f"ident {rng.choice([0, 0, 1, 2, 7, U32 - 1, rng.randrange(0, U32)])}" for _ in range(rng.randint(2, 6))], tag="ident")
 
 
 def generate(ctx, budget):
